@@ -1,6 +1,9 @@
 /* faultshim: LD_PRELOAD library that makes exactly one system/library call fail.
-     VERIF_FAULT=<site>:<k>     the k-th call (1-based, counted across the run's processes) of
+     VERIF_FAULT=<site>:<k>[:<how>]   the k-th call (1-based, counted across the run's processes) of
                                 site fails: fork pipe fcntl tmpfile write read malloc_send malloc_recv
+                                how (write and read only): s<n> = the call transfers only its first n bytes
+                                (a short write / short read), e<name> = fails with EINTR, EAGAIN, EPIPE
+                                or ENOSPC instead of EIO
      VERIF_FAULT_LOG=<file>     the first process writes "<site> <count>" lines at exit
    write/read are counted only on the descriptors returned by pipe(); malloc only when called
    from send_cgreen_message / receive_cgreen_message (dladdr on the return address).
@@ -21,7 +24,7 @@ static const char *NAMES[NSITES] = { "fork", "pipe", "fcntl", "tmpfile", "write"
 
 typedef struct { volatile int count[NSITES]; volatile int fired; int fds[16]; volatile int nfds; pid_t root; } Shared;
 static Shared *sh;
-static int target_site = -1, target_k = -1;
+static int target_site = -1, target_k = -1, target_short = -1, target_errno = EIO;
 static __thread int busy;
 
 extern void *__libc_malloc(size_t);
@@ -45,7 +48,17 @@ __attribute__((constructor)) static void init(void) {
     if (spec) {
         for (int i = 0; i < NSITES; i++) {
             size_t n = strlen(NAMES[i]);
-            if (!strncmp(spec, NAMES[i], n) && spec[n] == ':') { target_site = i; target_k = atoi(spec + n + 1); }
+            if (!strncmp(spec, NAMES[i], n) && spec[n] == ':') {
+                target_site = i; target_k = atoi(spec + n + 1);
+                const char *how = strchr(spec + n + 1, ':');
+                if (how && how[1] == 's') target_short = atoi(how + 2);
+                if (how && how[1] == 'e') {
+                    if (!strcmp(how + 2, "EINTR")) target_errno = EINTR;
+                    else if (!strcmp(how + 2, "EAGAIN")) target_errno = EAGAIN;
+                    else if (!strcmp(how + 2, "EPIPE")) target_errno = EPIPE;
+                    else if (!strcmp(how + 2, "ENOSPC")) target_errno = ENOSPC;
+                }
+            }
         }
     }
     atexit(report);
@@ -99,14 +112,20 @@ FILE *tmpfile(void) {
 ssize_t write(int fd, const void *buf, size_t n) {
     static ssize_t (*real)(int, const void *, size_t);
     if (!real) real = dlsym(RTLD_NEXT, "write");
-    if (is_pipe_fd(fd) && hit(S_WRITE)) { errno = EIO; return -1; }
+    if (is_pipe_fd(fd) && hit(S_WRITE)) {
+        if (target_short >= 0 && (size_t)target_short < n) return real(fd, buf, (size_t)target_short);
+        errno = target_errno; return -1;
+    }
     return real(fd, buf, n);
 }
 
 ssize_t read(int fd, void *buf, size_t n) {
     static ssize_t (*real)(int, void *, size_t);
     if (!real) real = dlsym(RTLD_NEXT, "read");
-    if (is_pipe_fd(fd) && hit(S_READ)) { errno = EIO; return -1; }
+    if (is_pipe_fd(fd) && hit(S_READ)) {
+        if (target_short >= 0 && (size_t)target_short < n) return real(fd, buf, (size_t)target_short);
+        errno = target_errno; return -1;
+    }
     return real(fd, buf, n);
 }
 
